@@ -429,7 +429,7 @@ Qed.
 Lemma opt_none_notin : forall k ps, opt k ps = None -> ~ In (B k) (map fst ps).
 Proof. intros k ps H Hin. destruct (last_val_in _ _ Hin) as [v Hv]. unfold opt in H. congruence. Qed.
 
-(** ** the thunk of each content section, under [sec_opts_known] (and [sec_no_meta_le] for metadata) *)
+(** ** the thunk of each content section, under [sec_opts_known] *)
 
 Lemma kind_known_pre : forall a, sid_kind a = SPreamble ->
   known_keys a = ["encoding"; "indent"; "length"; "line_endings"; "mimetype"].
@@ -448,16 +448,33 @@ Proof.
   destruct Ha as [<-|[<-|[<-|[<-|[<-|[]]]]]]; try (eexists; split; [|reflexivity]; cbn; tauto).
 Qed.
 
-Lemma meta_only_keys : forall s, sid_kind (fs_id s) = SMeta -> sec_opts_known s = true -> sec_no_meta_le s = true ->
-  only_keys (sec_copts s) ["encoding"; "format"] = true.
+(* pydiffx fix D15: the DOM writer drops a metadata section's [line_endings] before building the keyword arguments,
+   so (unlike before the fix) no premise about that option is needed *)
+Lemma meta_only_keys : forall s, sid_kind (fs_id s) = SMeta -> sec_opts_known s = true ->
+  only_keys (assoc_del beq (B "line_endings") (sec_copts s)) ["encoding"; "format"] = true.
 Proof.
-  intros s Hk Hkn Hle. apply only_keys_intro. intros k Hin. apply sec_copts_keys in Hin. destruct Hin as [Hin N].
+  intros s Hk Hkn. apply only_keys_intro. intros k Hin. apply adel_keys_gen in Hin. destruct Hin as [Hin Nle].
+  apply sec_copts_keys in Hin. destruct Hin as [Hin N].
   unfold sec_opts_known in Hkn. rewrite (kind_known_meta _ Hk) in Hkn.
-  unfold sec_no_meta_le in Hle. rewrite Hk in Hle.
   destruct (keys_in_In _ _ _ Hkn Hin) as [a [Ha ->]].
   destruct Ha as [<-|[<-|[<-|[<-|[]]]]]; try (eexists; split; [|reflexivity]; cbn; tauto).
-  exfalso. destruct (opt "line_endings" (fs_opts s)) eqn:E; [discriminate Hle|].
-    exact (opt_none_notin _ _ E Hin).
+  all: exfalso; apply Nle; reflexivity.
+Qed.
+
+Lemma meta_copts_del_unique : forall s, keys_unique (assoc_del beq (B "line_endings") (sec_copts s)) = true.
+Proof.
+  intro s. apply DomFacts.keys_unique_NoDup. apply adel_nodup. apply DomFacts.keys_unique_NoDup. apply sec_copts_unique.
+Qed.
+
+(* the keyword arguments of write_meta are the plain lookups of [encoding] and [format] in the section's options *)
+Lemma meta_kw_del : forall s, sid_kind (fs_id s) = SMeta -> sec_opts_known s = true ->
+  kw (remap "meta" (assoc_del beq (B "line_endings") (sec_copts s))) "encoding" = kw (sec_copts s) "encoding" /\
+  kw_opt (remap "meta" (assoc_del beq (B "line_endings") (sec_copts s))) "meta_format" = kw_opt (sec_copts s) "format".
+Proof.
+  intros s Hk Hkn.
+  destruct (remap_kw_meta _ (meta_copts_del_unique s) (meta_only_keys s Hk Hkn)) as [E1 E2].
+  rewrite E1, E2. unfold kw, kw_opt.
+  rewrite !(DomFacts.aget_del_other beq beq_eq (B "line_endings")) by discriminate. split; reflexivity.
 Qed.
 
 Lemma diff_only_keys : forall s, sid_kind (fs_id s) = SDiff -> sec_opts_known s = true ->
@@ -502,7 +519,7 @@ Proof.
     rewrite (is_nil_false _ Hne), (pre_only_keys s Hk Hkn). reflexivity.
 Qed.
 
-Lemma meta_thunk : forall s kv, sid_kind (fs_id s) = SMeta -> sec_opts_known s = true -> sec_no_meta_le s = true ->
+Lemma meta_thunk : forall s kv, sid_kind (fs_id s) = SMeta -> sec_opts_known s = true ->
   sec_payload s = PMeta (JObj kv) ->
   exists oc, sec_calls s = olist oc /\ call_meta (sec_msec s) = Ok oc /\
              oc = match kv with
@@ -510,10 +527,10 @@ Lemma meta_thunk : forall s kv, sid_kind (fs_id s) = SMeta -> sec_opts_known s =
                   | _ => Some (WriteMeta (WDict (JObj kv)) (wopt "encoding" s) (kw_opt (sec_copts s) "format"))
                   end.
 Proof.
-  intros s kv Hk Hkn Hle Hp. eexists. split; [|split; [|reflexivity]].
+  intros s kv Hk Hkn Hp. eexists. split; [|split; [|reflexivity]].
   - unfold sec_calls, payload_kv. rewrite Hp. destruct (fs_id s); try discriminate Hk; destruct kv; reflexivity.
-  - pose proof (meta_only_keys s Hk Hkn Hle) as Hok.
-    destruct (remap_kw_meta (sec_copts s) (sec_copts_unique s) Hok) as [E1 E2].
+  - pose proof (meta_only_keys s Hk Hkn) as Hok.
+    destruct (meta_kw_del s Hk Hkn) as [E1 E2].
     unfold call_meta, sec_msec, payload_kv. rewrite Hp. cbn [m_content m_opts].
     destruct kv as [|p kv]; [reflexivity|]. cbn [is_nil].
     rewrite (remap_only_keys_meta _ Hok), E1, E2. reflexivity.
@@ -741,11 +758,11 @@ Proof. intros. rewrite <- app_assoc. reflexivity. Qed.
 
 (* one section: the tree's call list grows by the calls of the section *)
 Lemma step_calls : forall prev x s t cs,
-  wf_section prev x s = true -> sec_opts_known s = true -> sec_no_meta_le s = true -> sec_accepts s = true ->
+  wf_section prev x s = true -> sec_opts_known s = true -> sec_accepts s = true ->
   Fresh prev t -> tree_calls t = Ok cs ->
   Fresh (Some (fs_id s)) (tof_step t s) /\ tree_calls (tof_step t s) = Ok (cs ++ sec_calls s).
 Proof.
-  intros prev x s t cs Hwf Hkn Hle Hacc Hfr Hcs.
+  intros prev x s t cs Hwf Hkn Hacc Hfr Hcs.
   destruct (wf_parts _ _ _ Hwf) as (Hord & _ & Henc & _).
   pose proof (wf_payload _ _ _ Hwf) as Hpay.
   destruct t as [O p M chs]. unfold tree_calls in *.
@@ -768,7 +785,7 @@ Proof.
     destruct HM as [-> ->].
     destruct Hpay as [j Ep]. rewrite Ep in Hacc. destruct j as [| | | | | |kv|]; try discriminate Hacc.
     assert (Hk : sid_kind (fs_id s) = SMeta) by (rewrite Eid; reflexivity).
-    destruct (meta_thunk s kv Hk Hkn Hle Ep) as (oc & Ec & Eth & _).
+    destruct (meta_thunk s kv Hk Hkn Ep) as (oc & Ec & Eth & _).
     split; [reflexivity|]. rewrite Ec. unfold tree_thunks. cbn [d_pre d_meta d_changes flat_map app]. rewrite Eth.
     exact (collect_replace [call_preamble p] [] oc cs nones0 Hcs).
   - (* Change *)
@@ -803,7 +820,7 @@ Proof.
     destruct HF as (chs' & co & cp & ->).
     destruct Hpay as [j Ep]. rewrite Ep in Hacc. destruct j as [| | | | | |kv|]; try discriminate Hacc.
     assert (Hk : sid_kind (fs_id s) = SMeta) by (rewrite Eid; reflexivity).
-    destruct (meta_thunk s kv Hk Hkn Hle Ep) as (oc & Ec & Eth & _).
+    destruct (meta_thunk s kv Hk Hkn Ep) as (oc & Ec & Eth & _).
     unfold on_last_change. cbn [d_opts d_pre d_meta d_changes]. rewrite map_last_app. unfold Ch at 1. cbn [c_opts c_pre c_meta c_files].
     split; [cbn [Fresh d_changes]; eauto|]. rewrite Ec.
     change {| d_opts := O; d_pre := p; d_meta := M;
@@ -836,7 +853,7 @@ Proof.
     destruct Hfr as (chs' & co & cp & cm & fs & fo & ->).
     destruct Hpay as [j Ep]. rewrite Ep in Hacc. destruct j as [| | | | | |kv|]; try discriminate Hacc.
     assert (Hk : sid_kind (fs_id s) = SMeta) by (rewrite Eid; reflexivity).
-    destruct (meta_thunk s kv Hk Hkn Hle Ep) as (oc & Ec & Eth & _).
+    destruct (meta_thunk s kv Hk Hkn Ep) as (oc & Ec & Eth & _).
     unfold on_last_file, on_last_change. cbn [d_opts d_pre d_meta d_changes]. rewrite map_last_app. cbv beta. unfold Ch.
     cbn [c_opts c_pre c_meta c_files]. rewrite map_last_app. cbv beta. unfold Fi. cbn [f_opts f_meta f_diff].
     split; [cbn [Fresh d_changes]; exists chs', co, cp, cm, fs, fo; eexists; reflexivity|]. rewrite Ec.
@@ -871,26 +888,26 @@ Proof.
 Qed.
 
 Lemma run_calls_secs : forall ss prev x t cs,
-  wf_secs prev x ss = true -> forallb sec_opts_known ss = true -> forallb sec_no_meta_le ss = true ->
+  wf_secs prev x ss = true -> forallb sec_opts_known ss = true ->
   forallb sec_accepts ss = true -> Fresh prev t -> tree_calls t = Ok cs ->
   tree_calls (tree_of_secs t ss) = Ok (cs ++ flat_map sec_calls ss).
 Proof.
-  induction ss as [|s ss IH]; intros prev x t cs Hwf Hkn Hle Hacc Hfr Hcs.
+  induction ss as [|s ss IH]; intros prev x t cs Hwf Hkn Hacc Hfr Hcs.
   - cbn [flat_map tree_of_secs fold_left]. rewrite app_nil_r. exact Hcs.
-  - cbn [wf_secs forallb] in *. apply andb_true_iff in Hwf, Hkn, Hle, Hacc.
-    destruct Hwf as [Hs Hss], Hkn as [K1 K2], Hle as [L1 L2], Hacc as [A1 A2].
-    destruct (step_calls prev x s t cs Hs K1 L1 A1 Hfr Hcs) as [Hfr' Hcs'].
+  - cbn [wf_secs forallb] in *. apply andb_true_iff in Hwf, Hkn, Hacc.
+    destruct Hwf as [Hs Hss], Hkn as [K1 K2], Hacc as [A1 A2].
+    destruct (step_calls prev x s t cs Hs K1 A1 Hfr Hcs) as [Hfr' Hcs'].
     cbn [flat_map tree_of_secs fold_left]. rewrite app_assoc.
-    exact (IH (Some (fs_id s)) (ectx_next x s) (tof_step t s) (cs ++ sec_calls s) Hss K2 L2 A2 Hfr' Hcs').
+    exact (IH (Some (fs_id s)) (ectx_next x s) (tof_step t s) (cs ++ sec_calls s) Hss K2 A2 Hfr' Hcs').
 Qed.
 
 (* the calls the object model issues when it re-serialises the tree it read from the file *)
 Theorem foreign_tree_calls : forall f,
-  wf_file f = true -> dom_accepts f = true -> opts_known f = true -> no_meta_line_endings f = true ->
+  wf_file f = true -> dom_accepts f = true -> opts_known f = true ->
   tree_calls (tree_of_file f) = Ok (file_calls f).
 Proof.
-  intros f Hwf Hacc Hkn Hle. unfold wf_file in Hwf. apply andb_true_iff in Hwf. destruct Hwf as [Hsecs _].
-  exact (run_calls_secs (ff_sections f) None ectx0 new_tree [] Hsecs Hkn Hle Hacc
+  intros f Hwf Hacc Hkn. unfold wf_file in Hwf. apply andb_true_iff in Hwf. destruct Hwf as [Hsecs _].
+  exact (run_calls_secs (ff_sections f) None ectx0 new_tree [] Hsecs Hkn Hacc
            (conj eq_refl (conj eq_refl eq_refl)) eq_refl).
 Qed.
 
@@ -1247,14 +1264,14 @@ Qed.
 (* a metadata section *)
 Lemma write_meta : forall prev x s st kv,
   wf_section (Some prev) x s = true -> sid_kind (fs_id s) = SMeta -> sec_opts_known s = true ->
-  sec_no_meta_le s = true -> sec_meta_nonempty s = true -> sec_meta_plain s = true ->
+  sec_meta_nonempty s = true -> sec_meta_plain s = true ->
   sec_payload s = PMeta (JObj kv) -> WSt prev x st ->
   exists st', run_all st (sec_calls s) = (st', Ok tt) /\ WSt (fs_id s) (ectx_next x s) st'.
 Proof.
-  intros prev x s st kv Hwf Hk Hkn Hle Hne Hpl Hp HW.
+  intros prev x s st kv Hwf Hk Hkn Hne Hpl Hp HW.
   destruct (wf_parts _ _ _ Hwf) as (Hord & _ & Henc & _). cbn [order_ok] in Hord.
   destruct (wf_meta_cases _ _ _ _ Hwf Hk Hp) as (Hfmt & Hcase).
-  destruct (meta_thunk s kv Hk Hkn Hle Hp) as (oc & Ec & _ & Eshape).
+  destruct (meta_thunk s kv Hk Hkn Hp) as (oc & Ec & _ & Eshape).
   pose proof HW as (Hr & Hst & lastw & Hpv & Hfol).
   assert (Hkc : sid_kind (fs_id s) <> SContainer) by (rewrite Hk; discriminate).
   assert (Hname : sid_name (fs_id s) = B "meta") by (destruct (fs_id s); try discriminate Hk; reflexivity).
@@ -1377,14 +1394,14 @@ Proof.
 Qed.
 
 Definition sec_writable (s : fsection) : bool :=
-  sec_accepts s && sec_opts_known s && sec_no_meta_le s && sec_choices_ok s && sec_meta_nonempty s && sec_meta_plain s.
+  sec_accepts s && sec_opts_known s && sec_choices_ok s && sec_meta_nonempty s && sec_meta_plain s.
 
 Lemma write_step : forall prev x s st,
   wf_section (Some prev) x s = true -> sec_writable s = true -> WSt prev x st ->
   exists st', run_all st (sec_calls s) = (st', Ok tt) /\ WSt (fs_id s) (ectx_next x s) st'.
 Proof.
   intros prev x s st Hwf Hw HW. unfold sec_writable in Hw. rewrite !andb_true_iff in Hw.
-  destruct Hw as [[[[[Hacc Hkn] Hle] Hch] Hne] Hpl].
+  destruct Hw as [[[[Hacc Hkn] Hch] Hne] Hpl].
   pose proof (wf_order _ _ _ Hwf) as Hord. cbn [order_ok] in Hord.
   pose proof (wf_payload _ _ _ Hwf) as Hpay.
   unfold sec_accepts in Hacc.
@@ -1475,10 +1492,10 @@ Proof.
 Qed.
 
 Lemma secs_writable : forall f,
-  dom_accepts f = true -> opts_known f = true -> no_meta_line_endings f = true -> choice_values_ok f = true ->
+  dom_accepts f = true -> opts_known f = true -> choice_values_ok f = true ->
   sub_metas_nonempty f = true -> metas_plain f = true -> forallb sec_writable (ff_sections f) = true.
 Proof.
-  intros f H1 H2 H3 H4 H5 H6. unfold sec_writable. repeat apply forallb_and; assumption.
+  intros f H1 H2 H4 H5 H6. unfold sec_writable. repeat apply forallb_and; assumption.
 Qed.
 
 Lemma main_first : forall m rest, wf_secs None ectx0 (m :: rest) = true ->
@@ -1512,13 +1529,13 @@ Proof. intros m H. unfold sec_calls. rewrite H. reflexivity. Qed.
 
 (* (B): the tree read from a well-formed foreign file serialises *)
 Theorem foreign_writes : forall f,
-  wf_file f = true -> dom_accepts f = true -> opts_known f = true -> no_meta_line_endings f = true ->
+  wf_file f = true -> dom_accepts f = true -> opts_known f = true ->
   choice_values_ok f = true -> sub_metas_nonempty f = true -> metas_plain f = true ->
   exists b, dom_write (tree_of_file f) = Ok b.
 Proof.
-  intros f Hwf Hacc Hkn Hle Hch Hne Hpl.
-  pose proof (foreign_tree_calls f Hwf Hacc Hkn Hle) as Hcalls.
-  pose proof (secs_writable f Hacc Hkn Hle Hch Hne Hpl) as Hw.
+  intros f Hwf Hacc Hkn Hch Hne Hpl.
+  pose proof (foreign_tree_calls f Hwf Hacc Hkn) as Hcalls.
+  pose proof (secs_writable f Hacc Hkn Hch Hne Hpl) as Hw.
   unfold wf_file in Hwf. apply andb_true_iff in Hwf. destruct Hwf as [Hsecs _].
   unfold tree_of_file, file_calls, opts_known in *.
   destruct (ff_sections f) as [|m rest] eqn:Ess.
@@ -1737,18 +1754,33 @@ Proof.
     unfold psec_text. cbn [p_content]. exact Hfin.
 Qed.
 
-Lemma G_sec_msec : forall prev x s j, wf_section prev x s = true -> sid_kind (fs_id s) = SMeta ->
-  sec_opts_known s = true -> sec_no_meta_le s = true -> sec_payload s = PMeta j -> G_m (sec_msec s).
+(* a metadata section may declare line_endings (the specification lists it); a well-formed one names the kind of
+   line ending its JSON text uses, so the value is a typed one.  (Since pydiffx fix D15 the DOM writer drops it.) *)
+Lemma meta_only_keys_le : forall s, sid_kind (fs_id s) = SMeta -> sec_opts_known s = true ->
+  only_keys (sec_copts s) ["encoding"; "format"; "line_endings"] = true.
 Proof.
-  intros prev x s j Hwf Hk Hkn Hle Hp.
+  intros s Hk Hkn. apply only_keys_intro. intros k Hin. apply sec_copts_keys in Hin. destruct Hin as [Hin N].
+  unfold sec_opts_known in Hkn. rewrite (kind_known_meta _ Hk) in Hkn.
+  destruct (keys_in_In _ _ _ Hkn Hin) as [a [Ha ->]].
+  destruct Ha as [<-|[<-|[<-|[<-|[]]]]]; try (eexists; split; [|reflexivity]; cbn; tauto).
+Qed.
+
+Lemma G_sec_msec : forall prev x s j, wf_section prev x s = true -> sid_kind (fs_id s) = SMeta ->
+  sec_opts_known s = true -> sec_payload s = PMeta j -> G_m (sec_msec s).
+Proof.
+  intros prev x s j Hwf Hk Hkn Hp.
   destruct (wf_parts _ _ _ Hwf) as (_ & _ & Henc & _).
-  destruct (wf_meta_cases _ _ _ _ Hwf Hk Hp) as (Hfmt & _).
-  pose proof (meta_only_keys s Hk Hkn Hle) as Hok.
+  destruct (wf_meta_cases _ _ _ _ Hwf Hk Hp) as (Hfmt & Hcase).
   unfold G_m, sec_msec, msec_enc. cbn [m_opts]. split.
-  - apply (typed_copts_sec s ["encoding"; "format"]).
-    + apply only_keys_nolen. exact Hok.
-    + intros a [<-|[<-|[]]]; [exact (val_typed_enc _ Henc) | exact (val_typed_format _ Hfmt)].
-  - rewrite (proj1 (remap_kw_meta (sec_copts s) (sec_copts_unique s) Hok)).
+  - apply (typed_copts_sec s ["encoding"; "format"; "line_endings"]).
+    + apply only_keys_nolen. exact (meta_only_keys_le s Hk Hkn).
+    + intros a [<-|[<-|[<-|[]]]]; [exact (val_typed_enc _ Henc) | exact (val_typed_format _ Hfmt) |].
+      destruct Hcase as [(t & _ & Htok) | (ls & k & _ & Hraw)].
+      * unfold text_ok in Htok. destruct (text_codec x s) as [cd|]; [|discriminate Htok].
+        rewrite !andb_true_iff in Htok. destruct Htok as [[_ T5] _]. exact (val_typed_le _ _ _ _ T5).
+      * unfold raw_ok in Hraw. destruct (eff_enc x s) as [eb|]; [discriminate Hraw|].
+        rewrite !andb_true_iff in Hraw. destruct Hraw as [[_ R3] _]. exact (val_typed_le _ _ _ _ R3).
+  - rewrite <- (proj1 (kw_remap_meta_del (sec_copts s))), (proj1 (meta_kw_del s Hk Hkn)).
     rewrite kw_copts by discriminate. rewrite (enc_wval _ Henc). exact (enc_okb_wenc _ Henc).
 Qed.
 
@@ -1825,7 +1857,7 @@ Lemma step_good : forall prev x s t,
   Shape (depth_of prev) t -> G_tree t -> G_tree (tof_step t s).
 Proof.
   intros prev x s t Hwf Hw Hfin Hsh (O1 & O2 & GP & GM & GC).
-  unfold sec_writable in Hw. rewrite !andb_true_iff in Hw. destruct Hw as [[[[[Hacc Hkn] Hle] Hch] _] _].
+  unfold sec_writable in Hw. rewrite !andb_true_iff in Hw. destruct Hw as [[[[Hacc Hkn] Hch] _] _].
   destruct (wf_parts _ _ _ Hwf) as (Hord & _ & Henc & _).
   pose proof (wf_payload _ _ _ Hwf) as Hpay.
   unfold sec_accepts in Hacc. unfold tof_step.
@@ -1927,20 +1959,20 @@ Qed.
 (* the tree read from a well-formed foreign file is in the domain of C05_full / C06_full, and normalising it does
    not change the contents of any section *)
 Theorem foreign_domain : forall f,
-  wf_file f = true -> dom_accepts f = true -> opts_known f = true -> no_meta_line_endings f = true ->
+  wf_file f = true -> dom_accepts f = true -> opts_known f = true ->
   choice_values_ok f = true -> sub_metas_nonempty f = true -> metas_plain f = true -> contents_final f = true ->
   typed_tree (tree_of_file f) = true /\ tree_encs_ok (tree_of_file f) = true /\
   tree_indents_ok (tree_of_file f) = true /\ same_contents (tree_of_file f) (normalise (tree_of_file f)).
 Proof.
-  intros f Hwf Hacc Hkn Hle Hch Hne Hpl Hfin. apply G_tree_facts.
-  pose proof (secs_writable f Hacc Hkn Hle Hch Hne Hpl) as Hw.
+  intros f Hwf Hacc Hkn Hch Hne Hpl Hfin. apply G_tree_facts.
+  pose proof (secs_writable f Hacc Hkn Hch Hne Hpl) as Hw.
   unfold wf_file in Hwf. apply andb_true_iff in Hwf. destruct Hwf as [Hsecs _].
   exact (good_secs (ff_sections f) None ectx0 new_tree Hsecs Hw Hfin I G_new_tree).
 Qed.
 
 (* (B)+(C)+(D), for the tree [tree_of_file f] *)
 Theorem foreign_reserialise : forall f orc,
-  wf_file f = true -> dom_accepts f = true -> opts_known f = true -> no_meta_line_endings f = true ->
+  wf_file f = true -> dom_accepts f = true -> opts_known f = true ->
   choice_values_ok f = true -> sub_metas_nonempty f = true -> metas_plain f = true -> contents_final f = true ->
   let t := tree_of_file f in
   exists b, dom_write t = Ok b /\ same_contents t (normalise t) /\
@@ -1950,9 +1982,9 @@ Theorem foreign_reserialise : forall f orc,
      normalise (normalise t) = normalise t /\
      (forall b', dom_write (normalise t) = Ok b' -> dom_read orc b' = Ok (normalise t))).
 Proof.
-  intros f orc Hwf Hacc Hkn Hle Hch Hne Hpl Hfin t.
-  destruct (foreign_writes f Hwf Hacc Hkn Hle Hch Hne Hpl) as [b Hb].
-  destruct (foreign_domain f Hwf Hacc Hkn Hle Hch Hne Hpl Hfin) as (Ht & He & Hi & Hsame).
+  intros f orc Hwf Hacc Hkn Hch Hne Hpl Hfin t.
+  destruct (foreign_writes f Hwf Hacc Hkn Hch Hne Hpl) as [b Hb].
+  destruct (foreign_domain f Hwf Hacc Hkn Hch Hne Hpl Hfin) as (Ht & He & Hi & Hsame).
   exists b. split; [exact Hb|]. split; [exact Hsame|].
   intros Ho Hm Hg Hsz.
   destruct (C06_full orc t b Ht He Hi Hb Ho Hm Hg Hsz) as (t' & R1 & -> & R3 & R4 & R5).
@@ -2003,7 +2035,7 @@ Definition fx_orc : oracle :=
 
 Example fx_good_premises :
   wf_file fx_good = true /\ dom_accepts fx_good = true /\ opts_known fx_good = true /\
-  no_meta_line_endings fx_good = true /\ choice_values_ok fx_good = true /\ sub_metas_nonempty fx_good = true /\
+  choice_values_ok fx_good = true /\ sub_metas_nonempty fx_good = true /\
   metas_plain fx_good = true /\ contents_final fx_good = true.
 Proof. vm_compute. repeat split. Qed.
 
@@ -2059,7 +2091,7 @@ Definition rx_orc : oracle :=
   [ (oracle_key_text (asc "{}" ++ [10%N]), LoadsOk (JObj []));
     (oracle_key_text (txt_a1 ++ [10%N]), LoadsOk obj_a1) ].
 
-(* finding D15: a metadata section that declares line_endings *)
+(* finding D15 (repaired; see meta_line_endings_ok below): a metadata section that declares line_endings *)
 Definition rx_meta_le : ffile :=
   file_of_secs [mainsec; metasec MainMeta [(B "format", B "json"); (B "length", B "8"); (B "line_endings", B "unix")] txt_a1 obj_a1].
 (* an empty ...meta followed by a diff; an empty ..meta followed by another .change *)
@@ -2093,9 +2125,33 @@ Ltac refute_tac :=
   split; [unfold oracle_ok_file; repeat (constructor; [vm_compute; first [exact I | reflexivity]|]); constructor|];
   split; vm_compute; reflexivity.
 
-Example meta_line_endings_refuted :
-  reads_but_fails rx_meta_le EType /\ other_premises rx_meta_le = (true, false, true, true, true, true).
-Proof. split; [refute_tac | vm_compute; reflexivity]. Qed.
+(* finding D15, REPAIRED in pydiffx (the DOM writer no longer passes a metadata section's line_endings on to
+   write_meta, which has no such parameter and never writes the option).  Until that fix [no_meta_line_endings f = true]
+   was a premise of C06_foreign / foreign_writes / foreign_domain / foreign_tree_calls and this file was its
+   [_refuted] witness (loads, then to_bytes() raised TypeError).  Now the same file loads and re-serialises: the
+   output simply carries no line_endings on that metadata section, the contents are the same, and the fixed point
+   holds.  [no_meta_line_endings] stays the second component of [other_premises] as a record that the file does
+   declare the option. *)
+Definition rx_meta_le_orc : oracle := rx_orc ++ [ (oracle_key_text (fx_dumped obj_a1), LoadsOk obj_a1) ].
+Definition rx_meta_le_bytes : bytes :=
+  B "#diffx: encoding=utf-8, version=1.0" ++ nl ++
+  B "#.meta: format=json, length=15" ++ nl ++
+  B "{" ++ nl ++ B "    " ++ [x22] ++ B "a" ++ [x22] ++ B ": 1" ++ nl ++ B "}" ++ nl.
+
+Example meta_line_endings_ok :
+  wf_file rx_meta_le = true /\ oracle_ok_file rx_meta_le_orc rx_meta_le /\
+  dom_read rx_meta_le_orc (render_file rx_meta_le) = Ok (tree_of_file rx_meta_le) /\
+  other_premises rx_meta_le = (true, false, true, true, true, true) /\
+  kw (m_opts (d_meta (tree_of_file rx_meta_le))) "line_endings" = S_ "unix" /\
+  dom_write (tree_of_file rx_meta_le) = Ok rx_meta_le_bytes /\
+  same_contents (tree_of_file rx_meta_le) (normalise (tree_of_file rx_meta_le)) /\
+  dom_read rx_meta_le_orc rx_meta_le_bytes = Ok (normalise (tree_of_file rx_meta_le)) /\
+  dom_write (normalise (tree_of_file rx_meta_le)) = Ok rx_meta_le_bytes.
+Proof.
+  split; [vm_compute; reflexivity|].
+  split; [unfold oracle_ok_file; repeat (constructor; [vm_compute; first [exact I | reflexivity]|]); constructor|].
+  repeat split; vm_compute; reflexivity.
+Qed.
 
 Example empty_file_meta_refuted :
   reads_but_fails rx_empty_file_meta ELibOrder /\ other_premises rx_empty_file_meta = (true, true, true, false, true, true).
@@ -2409,10 +2465,10 @@ Qed.
 
 (* the oracle hypothesis of C05_full / C06_full on the calls the file gives rise to *)
 Lemma foreign_tree_oracle : forall f orc,
-  wf_file f = true -> dom_accepts f = true -> opts_known f = true -> no_meta_line_endings f = true ->
+  wf_file f = true -> dom_accepts f = true -> opts_known f = true ->
   RoundTrip.oracle_ok orc (file_calls f) -> tree_oracle_ok orc (tree_of_file f).
 Proof.
-  intros f orc Hwf Hacc Hkn Hle H cs Hcs. rewrite (foreign_tree_calls f Hwf Hacc Hkn Hle) in Hcs.
+  intros f orc Hwf Hacc Hkn H cs Hcs. rewrite (foreign_tree_calls f Hwf Hacc Hkn) in Hcs.
   injection Hcs as <-. exact H.
 Qed.
 
@@ -2420,7 +2476,7 @@ Theorem C06_foreign : forall f orc t,
   wf_file f = true -> oracle_ok_file orc f ->
   (Z.of_nat (length (render_file f)) <= sys_maxsize)%Z ->
   dom_read orc (render_file f) = Ok t ->
-  opts_known f = true -> no_meta_line_endings f = true -> choice_values_ok f = true ->
+  opts_known f = true -> choice_values_ok f = true ->
   sub_metas_nonempty f = true -> metas_plain f = true ->
   exists b, dom_write t = Ok b /\ same_contents t (normalise t) /\
     (tree_oracle_ok orc t -> tree_metas_oracle_ok orc t -> tree_guesses_ok t ->
@@ -2429,17 +2485,17 @@ Theorem C06_foreign : forall f orc t,
      normalise (normalise t) = normalise t /\
      (forall b', dom_write (normalise t) = Ok b' -> dom_read orc b' = Ok (normalise t))).
 Proof.
-  intros f orc t Hwf Horc Hsz Hread Hkn Hle Hch Hne Hpl.
+  intros f orc t Hwf Horc Hsz Hread Hkn Hch Hne Hpl.
   destruct (foreign_read_inv f orc t Hwf Horc Hsz Hread) as [Hacc ->].
-  exact (foreign_reserialise f orc Hwf Hacc Hkn Hle Hch Hne Hpl (contents_final_wf f Hwf)).
+  exact (foreign_reserialise f orc Hwf Hacc Hkn Hch Hne Hpl (contents_final_wf f Hwf)).
 Qed.
 
 Theorem foreign_domain_wf : forall f,
-  wf_file f = true -> dom_accepts f = true -> opts_known f = true -> no_meta_line_endings f = true ->
+  wf_file f = true -> dom_accepts f = true -> opts_known f = true ->
   choice_values_ok f = true -> sub_metas_nonempty f = true -> metas_plain f = true ->
   typed_tree (tree_of_file f) = true /\ tree_encs_ok (tree_of_file f) = true /\
   tree_indents_ok (tree_of_file f) = true /\ same_contents (tree_of_file f) (normalise (tree_of_file f)).
-Proof. intros f H1 H2 H3 H4 H5 H6 H7. apply foreign_domain; auto. apply contents_final_wf; exact H1. Qed.
+Proof. intros f H1 H2 H3 H5 H6 H7. apply foreign_domain; auto. apply contents_final_wf; exact H1. Qed.
 
 (* the instance: every hypothesis holds for [fx_good], and the conclusion *)
 Example fx_good_C06 :
@@ -2448,9 +2504,9 @@ Example fx_good_C06 :
             dom_read fx_orc b = Ok (normalise (tree_of_file fx_good)) /\
             dom_write (normalise (tree_of_file fx_good)) = Ok b /\ b = fx_good_bytes.
 Proof.
-  destruct fx_good_premises as (P1 & P2 & P3 & P4 & P5 & P6 & P7 & _).
+  destruct fx_good_premises as (P1 & P2 & P3 & P5 & P6 & P7 & _).
   destruct fx_good_tree_hyps as (T1 & T2 & T3).
-  destruct (C06_foreign fx_good fx_orc _ P1 fx_good_oracle fx_good_size fx_good_read P3 P4 P5 P6 P7)
+  destruct (C06_foreign fx_good fx_orc _ P1 fx_good_oracle fx_good_size fx_good_read P3 P5 P6 P7)
     as (b & Hb & Hsame & Hrest).
   assert (Eb : b = fx_good_bytes) by (rewrite fx_good_writes in Hb; congruence).
   assert (Hsz : (Z.of_nat (length b) <= sys_maxsize)%Z) by (rewrite Eb; vm_compute; discriminate).
@@ -2462,14 +2518,14 @@ Example fx_good_all_hypotheses :
   wf_file fx_good = true /\ oracle_ok_file fx_orc fx_good /\
   (Z.of_nat (length (render_file fx_good)) <= sys_maxsize)%Z /\
   dom_read fx_orc (render_file fx_good) = Ok (tree_of_file fx_good) /\
-  opts_known fx_good = true /\ no_meta_line_endings fx_good = true /\ choice_values_ok fx_good = true /\
+  opts_known fx_good = true /\ choice_values_ok fx_good = true /\
   sub_metas_nonempty fx_good = true /\ metas_plain fx_good = true /\
   tree_oracle_ok fx_orc (tree_of_file fx_good) /\ tree_metas_oracle_ok fx_orc (tree_of_file fx_good) /\
   tree_guesses_ok (tree_of_file fx_good).
 Proof.
-  destruct fx_good_premises as (P1 & _ & P3 & P4 & P5 & P6 & P7 & _). destruct fx_good_tree_hyps as (T1 & T2 & T3).
-  exact (conj P1 (conj fx_good_oracle (conj fx_good_size (conj fx_good_read (conj P3 (conj P4 (conj P5 (conj P6
-        (conj P7 (conj T1 (conj T2 T3))))))))))).
+  destruct fx_good_premises as (P1 & _ & P3 & P5 & P6 & P7 & _). destruct fx_good_tree_hyps as (T1 & T2 & T3).
+  exact (conj P1 (conj fx_good_oracle (conj fx_good_size (conj fx_good_read (conj P3 (conj P5 (conj P6
+        (conj P7 (conj T1 (conj T2 T3)))))))))).
 Qed.
 
 (* [metas_plain]: the oracle is a parameter of the model; a value json.dumps rejects makes to_bytes() raise TypeError *)
